@@ -31,3 +31,9 @@ func TestC12(t *testing.T) { search(t, "C12") }
 func TestC13(t *testing.T) { search(t, "C13") }
 func TestC14(t *testing.T) { search(t, "C14") }
 func TestC15(t *testing.T) { search(t, "C15") }
+
+func TestC16(t *testing.T) { search(t, "C16") }
+func TestC17(t *testing.T) { search(t, "C17") }
+func TestC18(t *testing.T) { search(t, "C18") }
+func TestC19(t *testing.T) { search(t, "C19") }
+func TestC20(t *testing.T) { search(t, "C20") }
